@@ -75,6 +75,9 @@ func runC16(c *core.Ctx) {
 	c.Doc("C16.remove", "Remove: delete a found entry under the lock, OnTerminate exactly once on it outside the lock, error otherwise; unknown object ⇒ error", 4)
 	ruleRemove(c, lc, objects, class)
 
+	c.Doc("C16.terminate", "Terminate takes the objects out of the service under the exclusive lock and runs their hooks afterwards, outside the lock", 2)
+	ruleTerminateDetaches(c, lc, objects, boxes, class)
+
 	c.Doc("C16.unique-id", "Add stores under a key only after a failed lookup of it (or for the first object)", 1)
 	ruleUniqueID(c, objects)
 
@@ -86,6 +89,35 @@ func runC16(c *core.Ctx) {
 
 	c.Doc("C16.mailbox", "mailboxes are never closed (Receive sends to a mailbox after releasing the service lock)", 1)
 	ruleMailboxNeverClosed(c)
+
+	// the handler of a client-side object is dropped only by the function that also forgets
+	// its table entry: a stale entry would later designate another object's (recycled) handler
+	c.Doc("C16.client-remove", "a client-side object's handler is removed only by clientService.Remove, which deletes its table entry", 1)
+	{
+		n := 0
+		for _, fn := range srcFuncsOfPkg(c, "bus") {
+			root := fn
+			for root.Parent() != nil {
+				root = root.Parent()
+			}
+			rt := root.Signature.Recv()
+			if rt == nil || !core.TypeIs(derefType(rt.Type()), "bus", "clientService") {
+				continue
+			}
+			for i, call := range core.Calls(fn) {
+				cc := call.Common()
+				if !(cc.IsInvoke() && cc.Method.Name() == "RemoveHandler") {
+					continue
+				}
+				n++
+				c.Check(root.Name() == "Remove", "C16.client-remove", fmt.Sprintf("RemoveHandler@%s#%d", core.FuncKey(fn), i), call.Pos(), "in Remove, next to the delete of the entry",
+					"a client-side object's handler is removed in "+core.FuncKey(fn)+" without going through Remove: its entry stays in the table, and since handler slots are recycled the stale entry later designates another object's handler (removing one object then terminates another)")
+			}
+		}
+		if n == 0 {
+			c.Undecided("C16.client-remove", "bus.clientService", token.NoPos, "no RemoveHandler call found in clientService")
+		}
+	}
 
 	// a client-side object is terminated through the closer of its handler: removing the
 	// handler runs the closer, exactly once (rule shared with C17)
@@ -347,6 +379,15 @@ func ruleSubscribersTold(c *core.Ctx) {
 	}
 	c.Check(inLoop(st) && inLoop(rm), rule, "bus.signalHandler.OnTerminate/tell", fn.Pos(), "every former subscriber gets the termination error and loses its disconnect handler",
 		"OnTerminate does not tell every remaining subscriber (sendTerminate / RemoveHandler not executed per subscriber)")
+	// … whatever happens to the others: the loop is not left before the last subscriber
+	if st != nil && inLoop(st) {
+		out := leavesLoopEarly(st)
+		why := ""
+		if out != nil {
+			why = "the loop over the former subscribers can be left early (to " + c.Pos(out.Pos()) + ") after a subscriber was told: when telling one of them fails, the subscribers after it never learn that the object is gone"
+		}
+		c.Check(out == nil, rule, "bus.signalHandler.OnTerminate/all", st.Pos(), "the loop over the former subscribers has no early exit", why)
+	}
 }
 
 // ruleClientIDs: clientService.nextID is only ever incremented by a positive
@@ -401,4 +442,82 @@ func ruleMailboxNeverClosed(c *core.Ctx) {
 	if n == 0 {
 		c.Pass(rule, "close(MailBox)", token.NoPos, "no mailbox is ever closed")
 	}
+}
+
+// ruleTerminateDetaches: serviceImpl.Terminate runs every object's hook once
+// for good: the table it walks was taken out of the service (the field given
+// a fresh map) in one exclusive critical section, so that no later Remove finds
+// the objects again, and the hooks run with no service lock held.
+func ruleTerminateDetaches(c *core.Ctx, lc *core.LockCache, objects, boxes *types.Var, class core.LockClass) {
+	const rule = "C16.terminate"
+	fn := c.Func("bus", "serviceImpl", "Terminate")
+	if fn == nil {
+		c.Undecided(rule, "bus.serviceImpl.Terminate", token.NoPos, "anchor not found")
+		return
+	}
+	lf := lc.Get(fn)
+	var hooks []ssa.CallInstruction
+	for _, call := range core.Calls(fn) {
+		cc := call.Common()
+		if cc.IsInvoke() && cc.Method.Name() == "OnTerminate" {
+			hooks = append(hooks, call)
+		}
+	}
+	if len(hooks) == 0 {
+		c.Fail(rule, "bus.serviceImpl.Terminate/hooks", fn.Pos(), "Terminate never runs the termination hook of the objects")
+		return
+	}
+	// fresh maps given to the fields under the exclusive lock
+	freshStore := func(fld *types.Var) *ssa.Store {
+		for _, acc := range fieldAccesses(fn, fld) {
+			st, ok := acc.instr.(*ssa.Store)
+			if !ok || !acc.write {
+				continue
+			}
+			if _, isMake := core.Canon(st.Val).(*ssa.MakeMap); !isMake {
+				if !core.IsNilConst(core.Canon(st.Val)) {
+					continue
+				}
+			}
+			if held, _ := lf.HeldAt(st, class, true); held {
+				return st
+			}
+		}
+		return nil
+	}
+	so, sb := freshStore(objects), freshStore(boxes)
+	for i, h := range hooks {
+		key := fmt.Sprintf("bus.serviceImpl.Terminate/hook#%d", i+1)
+		in := h.(ssa.Instruction)
+		bad := ""
+		switch {
+		case lf.MayHeld(in)[class]:
+			bad = "the termination hooks run with the service lock held: a hook that calls back into the service (Remove, Add) deadlocks"
+		case so == nil || sb == nil:
+			bad = "Terminate runs the hooks of objects that stay registered (the object and mailbox tables are not replaced under the exclusive lock): a later Remove, or the object terminating itself, runs the hook a second time, and messages are still delivered to terminated objects"
+		default:
+			// the table walked is the one that was taken out: loaded from the field in the
+			// critical section that replaces it
+			walked := false
+			for _, acc := range fieldAccesses(fn, objects) {
+				ld, ok := acc.instr.(*ssa.UnOp)
+				if !ok || acc.write {
+					continue
+				}
+				if held, _ := lf.HeldAt(ld, class, true); held && sameSection(fn, ld, so, class) && core.CanReach(ld, func(x ssa.Instruction) bool { return x == ssa.Instruction(so) }) != nil {
+					for _, u := range allUses(ld) {
+						if _, isRange := u.(*ssa.Range); isRange {
+							walked = true
+						}
+					}
+				}
+			}
+			if !walked {
+				bad = "the hooks are not run on the table that was taken out of the service under the lock"
+			}
+		}
+		c.Check(bad == "", rule, key, h.Pos(), "objects detached under the exclusive lock, hooks run afterwards with no lock held", bad)
+	}
+	c.Check(so != nil && sb != nil, rule, "bus.serviceImpl.Terminate/detach", fn.Pos(), "objects and boxes are replaced by empty tables in an exclusive critical section",
+		"Terminate leaves the objects (or their mailboxes) registered")
 }
